@@ -56,6 +56,7 @@ def _load_translator(name):
 
 RXT = _load_translator("c19_rx")          # schema patterns -> Rx terms
 SUMT = _load_translator("c19_summary")    # body of the network loop of summary() -> Summ program
+NORM = SUMT.NORM                          # translators/c19_norm.py: equivalent surface shapes -> one canonical shape
 
 
 def lean_chars(s):
@@ -90,6 +91,7 @@ class FunTr:
 
     def __init__(self, prefix, cls, params, resolvable):
         self.prefix, self.cls, self.params, self.resolvable = prefix, cls, params, resolvable
+        self.lets = {}        # local name -> Lean term of the expression it was bound to (see `stmts`, Assign)
 
     def gap(self, node, why):
         raise Gap("%s: `%s`" % (why, src(node)[:90]))
@@ -97,6 +99,8 @@ class FunTr:
     def expr(self, e):
         E = self.expr
         if isinstance(e, ast.Name):
+            if e.id in self.lets:
+                return self.lets[e.id]
             if e.id in self.params:
                 return e.id
             self.gap(e, "free variable")
@@ -196,6 +200,24 @@ class FunTr:
             return "(pIfElse fs %s %s %s)" % (self.test(s.test), self.stmts(s.body + rest), self.stmts(s.orelse + rest))
         if isinstance(s, ast.Pass):
             return self.stmts(rest)
+        if isinstance(s, ast.Assign):
+            # `x = E` followed by a statement that evaluates `x` before anything else  =  that statement (and what
+            # follows) with E in place of x.  Sound because every expression this translator accepts is a
+            # deterministic function of `self`'s attributes and the parameters (no mutation, no I/O), so only WHEN an
+            # exception of E surfaces could differ: E is evaluated first at the assignment, and again first in the
+            # next statement, with nothing that can raise in between; later uses see the same value.  A local that is
+            # rebound, shadows a parameter, or is not the first thing the next statement evaluates is refused.
+            t = s.targets[0] if len(s.targets) == 1 else None
+            if not isinstance(t, ast.Name) or t.id == "self" or t.id in self.params or t.id in self.lets:
+                self.gap(s, "assignment target")
+            first = NORM.first_evaluated(rest[0]) if rest else None
+            if first is None or first.id != t.id:
+                self.gap(s, "local that is not evaluated first by the next statement")
+            self.lets[t.id] = self.expr(s.value)
+            try:
+                return self.stmts(rest)
+            finally:
+                del self.lets[t.id]
         if isinstance(s, ast.Expr):
             v = s.value
             if isinstance(v, ast.Constant) and isinstance(v.value, str):      # docstring
@@ -216,6 +238,7 @@ def fun_def(prefix, cls, name, fdef, resolvable):
     if not names or names[0] != "self":
         raise Gap("%s.%s: first parameter is not self" % (cls, name))
     params = names[1:]
+    fdef = NORM.normalise(fdef)        # S1-S6 of translators/c19_norm.py (locals are handled by FunTr.stmts, Assign)
     body = FunTr(prefix, cls, params, resolvable).stmts(fdef.body)
     sig = "".join(" (%s : Res F)" % p for p in params)
     return "def %s.%s.%s (fs : FloatSem F) (self : Obj F)%s : Res F :=\n  %s\n" % (prefix, cls, name, sig, body)
@@ -514,7 +537,7 @@ def generate(repo):
         if sm is None:
             gaps.append("%s: NeuroMLDocument.summary not found" % prefix)
         else:
-            parts.append(summary_block(sm, gaps).replace("def Nml.", "def %s." % prefix))
+            parts.append(summary_block(SUMT.normalised_summary(sm), gaps).replace("def Nml.", "def %s." % prefix))
             prog = SUMT.net_program(sm, gaps, prefix)
             if prog is not None:
                 parts.append("/-- the body of `for network in self.networks:` of `summary` (%s) -/\ndef %s.netProg : List Summ.L3 :=\n  %s\n"
@@ -588,7 +611,7 @@ RULE = ("accessor stream: every connection/input class x every accessor it has, 
         "a network with >= 2 populations and >= 1 non-empty projection, or a reference reading outside the two forms; "
         "distinct = distinct canonical case descriptions")
 TRUST = [
-    "py2lean-style translators in harness/props/c19.py and translators/c19_summary.py, c19_rx.py (AST shapes -> prelude combinators / statements of the summary language / Rx terms; method resolution; constructor defaults) are validated by the correspondence streams, not verified; they refuse what they do not understand",
+    "py2lean-style translators in harness/props/c19.py and translators/c19_summary.py, c19_rx.py, with the normaliser of equivalent surface shapes translators/c19_norm.py in front of them (AST shapes -> prelude combinators / statements of the summary language / Rx terms; method resolution; constructor defaults) are validated by the correspondence streams, not verified; they refuse what they do not understand",
     "Python builtins str.split/strip/in/endswith/slices/int() are modelled by the prelude of Model/Accessors.lean (decimal digits of every script as int()/float() read them, Unicode 15 table); float(): abstract parameter (FloatSem) in the theorems of Props/C19, exact rationals (RatSem) in Props/C19Rx and in the driver; binary rounding of float() and of *1000.0 is not modelled",
     "Python's re._parser is the reader of the schema patterns (the same reader the validators use); Rx.Matches is the meaning of a pattern, the matcher the driver runs is proved to decide it",
     "summary(): str() of connections / inputs / projections / input lists / locations is an opaque text supplied by the harness from the real object (Population.__str__ is modelled); the prologue (inspect.getmembers listing, flags) and has_segment_fraction_info, get_summary, print_summary are hand models whose source text is pinned by the translator; sorted() = stable sort by code points",
